@@ -15,7 +15,6 @@
 //! and the maximum number of idle connections per host.
 
 use std::collections::HashMap;
-use std::collections::HashSet;
 use std::collections::VecDeque;
 use std::fmt;
 use std::ops::Deref;
@@ -191,13 +190,13 @@ where
                 rx,
                 connector,
                 Some(connection),
-                false,
+                None,
                 &inner.config,
             );
         }
 
         trace!("checkout interested in pooled connections");
-        let dependent = inner.connecting.contains(&token);
+        let dependent = inner.connecting.contains_key(&token);
         inner
             .waiting
             .entry(token)
@@ -213,15 +212,17 @@ where
                 rx,
                 connector,
                 None,
-                false,
+                None,
                 &inner.config,
             )
         } else {
-            if multiplex {
+            let mark = if multiplex {
                 // Only block new connection attempts if we can multiplex on this one.
                 trace!("checkout of multiplexed connection, other connections should wait");
-                inner.connecting.insert(token);
-            }
+                Some(inner.mark_connecting(token))
+            } else {
+                None
+            };
             trace!("connecting to host");
             Checkout::new(
                 token,
@@ -229,7 +230,7 @@ where
                 rx,
                 connector,
                 None,
-                multiplex,
+                mark,
                 &inner.config,
             )
         }
@@ -344,7 +345,9 @@ where
 {
     config: Config,
 
-    connecting: HashSet<Token>,
+    /// Keys with a connection attempt in progress, and the mark of the checkout which owns it.
+    connecting: HashMap<Token, usize>,
+    marks: usize,
     waiting: HashMap<Token, VecDeque<Waiter<C, B>>>,
 
     idle: HashMap<Token, IdleConnections<C, B>>,
@@ -358,15 +361,26 @@ where
     fn new(config: Config) -> Self {
         Self {
             config,
-            connecting: HashSet::new(),
+            connecting: HashMap::new(),
+            marks: 0,
             waiting: HashMap::new(),
             idle: HashMap::new(),
         }
     }
 
-    pub(in crate::client) fn cancel_connection(&mut self, token: Token) {
-        let existed = self.connecting.remove(&token);
+    /// Mark a key as connecting, returning the mark which identifies this attempt.
+    fn mark_connecting(&mut self, token: Token) -> usize {
+        self.marks += 1;
+        self.connecting.insert(token, self.marks);
+        self.marks
+    }
+
+    /// Cancel the connection attempt identified by `mark`. A mark which has been cleared
+    /// or replaced by a newer attempt in the meantime is left alone.
+    pub(in crate::client) fn cancel_connection(&mut self, token: Token, mark: usize) {
+        let existed = self.connecting.get(&token) == Some(&mark);
         if existed {
+            self.connecting.remove(&token);
             trace!("pending connection cancelled");
 
             // Checkouts which rely on the cancelled attempt can never be served by it.
@@ -389,7 +403,7 @@ where
     /// New connection attempts will wait for this connection to complete the
     /// handshake and re-use it if possible.
     pub(in crate::client) fn connected_in_handshake(&mut self, token: Token) {
-        self.connecting.insert(token);
+        self.mark_connecting(token);
     }
 }
 
